@@ -7,7 +7,7 @@ Flag0(name) == IF name \in DOMAIN IOEnv THEN IOEnv[name] = "1" ELSE FALSE
 MC_Sources  == {"a", "sub/b", "sub/c"}
 MC_Modules  == {"sub/c", "lib/m"}
 MC_DirOf    == [f \in MC_Sources \cup MC_Modules |-> IF f \in {"sub/b", "sub/c"} THEN "sub" ELSE IF f = "lib/m" THEN "lib" ELSE "root"]
-MC_Dirs     == {"sub"}
+MC_Dirs     == {"sub", "lib"}       \* `lib` holds a module only: a directory whose removal takes a DEPENDENCY of surviving sources away
 MC_Requires == [s \in MC_Sources \cup MC_Modules |-> IF s = "a" THEN {"lib/m"} ELSE IF s = "sub/b" THEN {"sub/c", "lib/m"} ELSE {}]
 \* c2+skip = c2 whose remove_empty_do rule carries skip_files: ['**/a.lua'];  c2+read = c2 with the readable generator
 MC_Configs  == IF Flag0("MORECONFIGS") THEN {"c1", "c2", "c2+skip", "c2+read"} ELSE {"c1", "c2"}
@@ -23,5 +23,6 @@ MC_DevCleanAfterWrite   == Flag("DevCleanAfterWrite")
 MC_DevDepsOnSuccessOnly == Flag("DevDepsOnSuccessOnly")
 MC_DevCreateNoNotify    == Flag("DevCreateNoNotify")
 MC_DevDepsOnExistingOnly == Flag("DevDepsOnExistingOnly")
+MC_DevRmdirNoRestart    == Flag("DevRmdirNoRestart")
 
 =============================================================================
